@@ -117,11 +117,12 @@ _CONST_CACHE = {}
 class SymInt:
     """Python int as a signed bit-vector whose width always contains the value (every
     operation widens), plus a conservative interval [lo, hi] used to size widths."""
-    __slots__ = ("e", "lo", "hi", "w")
+    __slots__ = ("e", "lo", "hi", "w", "origin")
 
     def __init__(self, e, lo, hi, w=None):
         self.e, self.lo, self.hi = e, lo, hi
         self.w = e.size() if w is None else w
+        self.origin = None          # ("mod"|"div", dividend, constant) for results of division by a constant (lets oracles compare operands)
 
     @staticmethod
     def lift(o):
@@ -268,8 +269,13 @@ class SymInt:
             adj = z3.And(rt != 0, a < 0)
             q = z3.If(adj, qt - 1, qt)
             r = z3.If(adj, rt + cv, rt)
-        return (mkint(SymInt(q, self.lo // c, self.hi // c)),
-                mkint(SymInt(r, 0, min(max(abs(self.lo), abs(self.hi)), c - 1) if self.lo >= 0 else c - 1)))
+        qq = mkint(SymInt(q, self.lo // c, self.hi // c))
+        rr = mkint(SymInt(r, 0, min(max(abs(self.lo), abs(self.hi)), c - 1) if self.lo >= 0 else c - 1))
+        if isinstance(qq, SymInt):
+            qq.origin = ("div", self, c)
+        if isinstance(rr, SymInt):
+            rr.origin = ("mod", self, c)
+        return qq, rr
 
     def __mod__(self, c):
         return self._divmod_const(c)[1]
@@ -403,6 +409,11 @@ class SymInt:
         return None
 
     def __format__(self, spec):
+        import re as _re
+        m = _re.fullmatch(r"0(\d+)d", spec or "")
+        if m and self.lo >= 0 and self.hi < 10 ** int(m.group(1)):
+            n = int(m.group(1))
+            return SymDecimal(self, n)                                                     # exact zero-padded decimal digits
         v = self._fmt_value()
         return format(v, spec) if v is not None else "<sym>"
 
@@ -459,6 +470,12 @@ class SymBytes:
 
     def __getitem__(self, i):
         if isinstance(i, slice):
+            if isinstance(i.start, SymInt) and isinstance(i.stop, SymInt) and i.step is None:
+                # data[o:o+n] with a symbolic offset and a constant width: select octets by table look-up instead of forking on o
+                d = i.stop - i.start
+                n = d if isinstance(d, int) else CTX.concretize(d)      # one value when the width is constant (solver-checked)
+                if 0 <= n <= 64 and i.start.lo >= 0 and i.start.hi + n <= len(self.items):
+                    return mkbytes([select_table(self.items, i.start + k) for k in range(n)])
             if any(isinstance(x, SymInt) for x in (i.start, i.stop, i.step)):
                 i = slice(*[x.__index__() if isinstance(x, SymInt) else x for x in (i.start, i.stop, i.step)])
             return mkbytes(self.items[i])
@@ -558,6 +575,28 @@ class SymBytes:
     def splitlines(self):
         raise Unsupported("SymBytes.splitlines")
 
+    def strip(self, chars=None):
+        ws = b" \t\n\r\x0b\x0c" if chars is None else chars
+        items = list(self.items)
+
+        def is_ws(x):
+            r = False
+            for w in ws:
+                r = (x == w) if r is False else (r | (x == w))
+            return bool(r)
+        while items and is_ws(items[-1]):
+            items.pop()
+        while items and is_ws(items[0]):
+            items.pop(0)
+        return mkbytes(items)
+
+    def rstrip(self, chars=None):
+        ws = b" \t\n\r\x0b\x0c" if chars is None else chars
+        items = list(self.items)
+        while items and bool(_any_eq(items[-1], ws)):
+            items.pop()
+        return mkbytes(items)
+
     def decode(self, enc="utf-8", errors="strict"):
         enc = enc.lower().replace("-", "").replace("_", "")
         if enc in ("latin1", "iso88591"):
@@ -581,6 +620,13 @@ class SymBytes:
 
     def concrete(self, model):
         return bytes(CTX.eval_int(model, x) for x in self.items)
+
+
+def _any_eq(x, values):
+    r = False
+    for w in values:
+        r = (x == w) if r is False else (r | (x == w))
+    return r
 
 
 def mkbytes(items):
@@ -680,6 +726,45 @@ class SymStr:
 
     def __repr__(self):
         return "<SymStr n=%d>" % len(self.items)
+
+
+class SymDecimal(SymStr):
+    """text that is the zero-padded decimal rendering of a symbolic integer: comparisons go through the integer
+    (one remainder constraint) instead of digit-wise division, which bit-blasting handles poorly"""
+    __slots__ = ("source", "width")
+
+    def __init__(self, source, width):
+        self.source, self.width = source, width
+        SymStr.__init__(self, [((source // (10 ** (width - 1 - i))) % 10) + 48 for i in range(width)])
+
+    def _as_number(self, o):
+        """integer denoted by a decimal digit string (symbolic or not) of the same width, with its validity condition"""
+        items = [ord(ch) for ch in o] if isinstance(o, str) else list(o.items)
+        if len(items) != self.width:
+            return None, False
+        val, ok = 0, True
+        for it in items:
+            d = (it >= 48) & (it <= 57)
+            ok = d if ok is True else (ok & d)
+            val = val * 10 + (it - 48)
+        return val, ok
+
+    def __eq__(self, o):
+        if isinstance(o, SymDecimal) and o.width == self.width:
+            return self.source == o.source
+        if isinstance(o, (str, SymStr)):
+            val, ok = self._as_number(o)
+            if ok is False:
+                return False
+            r = (self.source == val)
+            return r if ok is True else (ok & r)
+        return False
+
+    def __ne__(self, o):
+        r = self.__eq__(o)
+        return (not r) if isinstance(r, bool) else ~r
+
+    __hash__ = SymStr.__hash__
 
 
 def mkstr(items):
